@@ -58,8 +58,8 @@ Qed.
 Definition counted (polys : list polygon) (inner : ring) (c : list (Z * Z)) : Prop :=
   forall k, In k (map fst c) -> forall p, zth polys k = Some p -> exists o a, p = o :: a /\ vertex_contained o inner.
 
-Lemma matchVertices_counted polys inner : forall verts counts m counts', incl verts inner ->
-  counted polys inner counts -> matchVertices polys verts counts = Ok (m, counts') -> counted polys inner counts'.
+Lemma matchVertices_counted cancelled innerI polys inner : forall verts counts m counts', incl verts inner ->
+  counted polys inner counts -> matchVertices cancelled innerI polys verts counts = Ok (m, counts') -> counted polys inner counts'.
 Proof.
   induction verts as [| v verts IH]; intros counts m counts' Hin Hc H; cbn [matchVertices] in H.
   - inversion H; subst. exact Hc.
@@ -70,7 +70,11 @@ Proof.
                     counted polys inner c -> counted polys inner c').
     { induction l as [| p l IHl]; intros k c c' Hg Hk Hl Hcc; cbn in Hg.
       - inversion Hg; subst. exact Hcc.
-      - bind_inv Hg outer Ho. bind_inv Hg cb Hcb.
+      - assert (Hl' : forall j q, 0 <= j -> zth l j = Some q -> zth polys (k + 1 + j) = Some q).
+        { intros j q Hj Hq. replace (k + 1 + j) with (k + (j + 1)) by lia. apply Hl; [lia |].
+          cbn [zth]. destruct (Z.eqb_spec (j + 1) 0); [lia |]. replace (j + 1 - 1) with j by lia. exact Hq. }
+        destruct (skipCancelled cancelled k innerI); [apply (IHl (k + 1) _ c' Hg); [lia | exact Hl' | exact Hcc] |].
+        bind_inv Hg outer Ho. bind_inv Hg cb Hcb.
         apply (IHl (k + 1) _ c' Hg); [lia | |].
         + intros j q Hj Hq. replace (k + 1 + j) with (k + (j + 1)) by lia. apply Hl; [lia |].
           cbn [zth]. destruct (Z.eqb_spec (j + 1) 0); [lia |]. replace (j + 1 - 1) with j by lia. exact Hq.
@@ -125,31 +129,31 @@ Qed.
 Definition order_ok (n : Z) (sorted : option (list Z)) : Prop :=
   match sorted with None => True | Some s => forall j, 0 <= j < n -> In j s end.
 
-Lemma matchInnersLoop_nested : forall innerRings polys sorted turned polys' turned',
+Lemma matchInnersLoop_nested cancelled : forall innerRings innerI polys sorted turned polys' turned',
   Forall well_nested polys -> order_ok (zlen polys) sorted ->
-  matchInnersLoop polys innerRings sorted turned = Ok (polys', turned') -> Forall well_nested polys'.
+  matchInnersLoop cancelled innerI polys innerRings sorted turned = Ok (polys', turned') -> Forall well_nested polys'.
 Proof.
-  induction innerRings as [| inner rest IH]; intros polys sorted turned polys' turned' F Hs H; cbn [matchInnersLoop] in H.
+  induction innerRings as [| inner rest IH]; intros innerI polys sorted turned polys' turned' F Hs H; cbn [matchInnersLoop] in H.
   - inversion H; subst. exact F.
   - bind_inv H m Hm. destruct m as [mk counts].
     assert (K0 : keys_in (zlen polys) []) by (intros k []).
-    destruct (matchVertices_keys _ _ _ _ _ K0 Hm) as [Kc Ks].
+    destruct (matchVertices_keys _ _ _ _ _ _ _ K0 Hm) as [Kc Ks].
     assert (C0 : counted polys inner []) by (intros k []).
-    pose proof (matchVertices_counted polys inner inner [] _ _ (incl_refl _) C0 Hm) as Cc.
+    pose proof (matchVertices_counted cancelled innerI polys inner inner [] _ _ (incl_refl _) C0 Hm) as Cc.
     assert (Hlen : forall k, zlen (append_inner polys k inner) = zlen polys)
       by (intro k; unfold zlen; rewrite append_inner_length; reflexivity).
     destruct mk as [k |].
-    + refine (IH _ sorted turned polys' turned' (append_inner_nested polys k inner F (Cc k (Ks k eq_refl))) _ H).
+    + refine (IH _ _ sorted turned polys' turned' (append_inner_nested polys k inner F (Cc k (Ks k eq_refl))) _ H).
       rewrite Hlen. exact Hs.
     + destruct (length counts =? 0)%nat eqn:El.
-      * apply (IH _ _ _ _ _ F Hs H).
+      * apply (IH _ _ _ _ _ _ F Hs H).
       * set (srt := match sorted with Some s => s | None => sortPolyIdxsByOuterAreaDesc polys end) in *.
         assert (Hsrt : forall j, 0 <= j < zlen polys -> In j srt).
         { unfold srt. destruct sorted as [s |]; [exact Hs | apply sorted_covers]. }
         assert (Hk : In (lastMatch srt (map fst counts)) (map fst counts)).
         { destruct counts as [| [a b] c]; [discriminate |].
           apply (lastMatch_found srt _ a); [left; reflexivity | apply Hsrt, Kc; left; reflexivity]. }
-        refine (IH _ (Some srt) turned polys' turned' (append_inner_nested polys _ inner F (Cc _ Hk)) _ H).
+        refine (IH _ _ (Some srt) turned polys' turned' (append_inner_nested polys _ inner F (Cc _ Hk)) _ H).
         cbn [order_ok]. rewrite Hlen. exact Hsrt.
 Qed.
 
@@ -159,9 +163,9 @@ Proof.
   assert (F0 : Forall well_nested (map (fun o : ring => [o]) outs)).
   { rewrite Forall_forall. intros p Hp. apply in_map_iff in Hp. destruct Hp as [o [<- _]]. exists o, []. auto. }
   unfold matchInnersToPolygons. destruct ins as [| i ins]; [intro H; inversion H; subst; exact F0 |].
-  intro H. bind_inv H r Hr. destruct r as [polys' turned']. inversion H; subst. cbn [fst snd].
+  intro H. bind_inv H cancelled Hcb. bind_inv H r Hr. destruct r as [polys' turned']. inversion H; subst. cbn [fst snd].
   apply Forall_app. split.
-  - exact (matchInnersLoop_nested (i :: ins) _ None [] polys' turned' F0 I Hr).
+  - exact (matchInnersLoop_nested cancelled (i :: ins) 0 _ None [] polys' turned' F0 I Hr).
   - rewrite Forall_forall. intros p Hp. apply in_map_iff in Hp. destruct Hp as [t [<- _]]. exists t, []. auto.
 Qed.
 
